@@ -313,10 +313,30 @@ fn index_case(seed: u64, idx: usize, sc: Scale, out: &mut Out) {
                 let left = target_nodes.saturating_sub(index.len()).max(1);
                 let b = if b <= room { b.min(left) } else if b > 400 { left.min(101) } else { b };
                 let b = if sc.big_batch { b.min(400) } else { b.min(if rng.chance(0.05) { 101 } else { 12 }) };
-                let vecs: Vec<Vec<f32>> = (0..b).map(|_| pick_vec(&mut rng)).collect();
+                let mut vecs: Vec<Vec<f32>> = (0..b).map(|_| pick_vec(&mut rng)).collect();
+                // a batch with one wrong-dimension member (first, middle or last; shorter or longer) must be
+                // refused as a whole before anything is stored
+                let wrong_batch = b > 0 && rng.chance(0.12);
+                if wrong_batch {
+                    let at = *rng.pick(&[0usize, b / 2, b - 1]);
+                    match rng.below(3) {
+                        0 => vecs[at].truncate(dim.saturating_sub(1).max(if dim > 1 { 1 } else { 0 })),
+                        1 => vecs[at].truncate((dim / 4).max(0)),
+                        _ => vecs[at].extend(std::iter::repeat(0.25).take(3)),
+                    }
+                    if vecs[at].len() == dim {
+                        vecs[at].push(0.5);
+                    }
+                }
                 let ids: Vec<usize> = (0..b).map(|_| rng.below(1 << 20) as usize).collect();
                 let data: Vec<(&[f32], usize)> = vecs.iter().zip(ids.iter()).map(|(v, i)| (v.as_slice(), *i)).collect();
-                if index.parallel_insert_batch(&data).is_ok() {
+                let before = index.len();
+                let r = index.parallel_insert_batch(&data);
+                if wrong_batch && (r.is_ok() || index.len() != before) && b <= room {
+                    out.violation("index-wrong-dimension-vector-accepted", format!("a batch of {} vectors with a wrong-dimension member was {} by an index of dimension {} (nodes {} -> {})", b, if r.is_ok() { "accepted" } else { "partly stored" }, dim, before, index.len()), desc.clone());
+                    return;
+                }
+                if r.is_ok() {
                     for i in &ids {
                         inserted.insert(*i as u64);
                     }
